@@ -1,6 +1,7 @@
 """C17 — Merkle roots, BIP37 partial Merkle trees, header proof-of-work / compact bits / retarget."""
 import hashlib
 import itertools
+import math
 import struct
 from fractions import Fraction
 from io import BytesIO
@@ -23,14 +24,14 @@ RULE += ("  Reuse: ONE MerkleBlock / Block / HeadersMessage object queried repea
          "MerkleBlock objects filled alternately, merkle_root on one list object edited between calls, compact-bits and "
          "tree-size functions called in sequences; each answer compared with a fresh object and the references.")
 TRUSTED = ["hashlib (sha256) — hash256 is a universally quantified function in the theorems",
-           "modelled, not verified: object plumbing of MerkleBlock/Block/HeadersMessage; Block.difficulty "
-           "(a float quotient) is only compared with an exact rational to 1e-12 relative",
+           "modelled, not verified: object plumbing of MerkleBlock/Block/HeadersMessage; CPython's int / int true "
+           "division is taken to be the correctly rounded (nearest, ties to even) double of the exact quotient, which "
+           "is what Model/Difficulty.v computes and the harness checks on every case",
            "the cursor machine MerkleTree.populate_tree is modelled faithfully (Model/MerkleBlock.v populate_loop); its "
-           "equality with the recursive traversal used in the theorems is proved by exhaustive kernel evaluation for "
-           "all totals 1..6 and all flag-bit strings up to the length the machine can consume (+1), and otherwise "
-           "correspondence-tested on every generated case (both models are run against the implementation)"]
-ASSUMPTIONS = ["hash256 has 32-byte output and the hashes of a proof are 32 bytes each (MerkleBlock.parse guarantees "
-               "it; a MerkleBlock constructed directly with other lengths is outside the soundness theorem)",
+           "equality with the recursive traversal used in the theorems is PROVED for all inputs "
+           "(Proofs/MerkleRefineGen.v); both models are also run against the implementation on every generated case"]
+ASSUMPTIONS = ["hash256 has 32-byte output (populate_tree refuses proof hashes of any other length since 5e35f6e, so "
+               "the soundness theorems need no premise on the proof)",
                "MerkleTree level sizes use float division math.ceil(total / 2**k): exact for total < 2^53 "
                "(the wire field is 32 bits); totals above 100000 are not allocated by the harness; the depth "
                "formula alone is exercised up to 2^64 through an int subclass that aborts before allocation"]
@@ -136,7 +137,8 @@ def core_check_pow(hsh, nbits):
 
 
 def compact_guard(bits):
-    """domain on which helper.bits_to_target is proved equal to Core SetCompact"""
+    """the usual domain (exponent >= 3, sign bit clear, no overflow) — before the fix de6be4c the only one on which
+    helper.bits_to_target agreed with Core SetCompact; now used to label cases and to pick ordinary headers"""
     if len(bits) != 4:
         return False
     n = int.from_bytes(bits, "little")
@@ -227,15 +229,66 @@ def i_bip37_build(leaves, matches):
 
 def i_bits_to_target(b):
     x = helper.bits_to_target(b)
-    if isinstance(x, float):
-        y = x * 2 ** 24
-        assert y == int(y)
-        return [1, int(y)]
+    assert type(x) is int
     return [0, x]
 
 
 def i_headers_is_valid(l):
     return network.HeadersMessage([_blk(*f) for f in l]).is_valid()
+
+
+def i_difficulty(bits):
+    """Block.difficulty() as the exact rational the returned double stands for"""
+    x = Block(1, Z32, Z32, 0, bits, b"\x00" * 4).difficulty()
+    assert type(x) is float
+    return list(x.as_integer_ratio())
+
+
+def i_populate_mut(total, bits, hashes):
+    """populate_tree pops from the caller's lists: also report what is left in them"""
+    fb, hl = list(bits), list(hashes)
+    t = MerkleTree(total)
+    t.populate_tree(fb, hl)
+    return [t.root(), t.proved_txs, fb, hl]
+
+
+def i_mb_parse_is_valid(s):
+    mb = MerkleBlock.parse(BytesIO(s))
+    ok = mb.is_valid()
+    return [ok, mb.proved_txs()]
+
+
+def i_headers_parse_is_valid(s):
+    return network.HeadersMessage.parse(BytesIO(s)).is_valid()
+
+
+def _cs(n):
+    """CompactSize, written out independently of helper.encode_varint"""
+    if n < 253:
+        return bytes([n])
+    if n <= 0xFFFF:
+        return b"\xfd" + struct.pack("<H", n)
+    if n <= 0xFFFFFFFF:
+        return b"\xfe" + struct.pack("<I", n)
+    return b"\xff" + struct.pack("<Q", n)
+
+
+def wire_merkleblock(hb, total, hashes_internal, flags):
+    """Core's CMerkleBlock layout: header | uint32 nTransactions | vHash | vBits bytes"""
+    return hb + struct.pack("<I", total) + _cs(len(hashes_internal)) + b"".join(hashes_internal) + _cs(len(flags)) + flags
+
+
+def i_merkleblock_of_block(hb, leaves, matches):
+    total, bits, hashes, flags = ref_build(leaves, [bool(m) for m in matches])
+    return wire_merkleblock(hb, total, hashes, flags)
+
+
+def wire_headers(fields):
+    """what a peer sends in a "headers" message: count, then 80-byte header + a zero transaction count each"""
+    out = _cs(len(fields))
+    for v, p, m, t, b, n in fields:
+        out += struct.pack("<I", v) + p[::-1] + m[::-1] + struct.pack("<I", t) + b + n + b"\x00"
+    return out
 
 
 IMPL = {
@@ -260,6 +313,13 @@ IMPL = {
     "block_hash": lambda *f: _blk(*f).hash(),
     "check_pow": lambda *f: _blk(*f).check_pow(),
     "headers_is_valid": i_headers_is_valid,
+    "difficulty": i_difficulty,
+    "populate_mut": i_populate_mut,
+    "populate_rec_mut": i_populate_mut,
+    "mb_parse_is_valid": i_mb_parse_is_valid,
+    "headers_parse_is_valid": i_headers_parse_is_valid,
+    "merkleblock_bytes": wire_merkleblock,
+    "merkleblock_of_block": i_merkleblock_of_block,
     "core_set_compact": lambda n: list(core_set_compact(n)),
     "core_get_compact": core_get_compact,
     "core_next_work": core_next_work,
@@ -438,8 +498,101 @@ def p_tamper(leaves, total, hashes, flags, kind, idx, bit, extra):
     if foreign:
         return (f"altered proof (kind={kind} idx={idx} bit={bit}, total {total}->{t2}) validates and yields "
                 f"{len(foreign)} id(s) that are not in the block, e.g. {foreign[0].hex()}")
-    if kind in (0, 3):
-        return f"proof with an altered {'hash' if kind == 0 else 'root'} still validates (kind={kind} idx={idx} bit={bit})"
+    if kind in (0, 3, 4, 5):
+        # C17_proof_hash_tamper_detected / C17_proof_root_tamper_detected: with total and flags unchanged no other
+        # hash list (changed, shorter, longer) and no other root validates
+        what = {0: "an altered hash", 3: "an altered root", 4: "a dropped hash", 5: "an inserted hash"}[kind]
+        return f"proof with {what} still validates (kind={kind} idx={idx} bit={bit})"
+    if t2 == total and not _is_subsequence(proved, [x[::-1] for x in leaves]):
+        # C17_proof_sound_ordered: with the authentic total the yield is a sub-sequence of the block's ids
+        return (f"altered proof (kind={kind} idx={idx}) validates and yields the block's ids out of block order")
+    return None
+
+
+def _is_subsequence(sub, seq):
+    it = iter(seq)
+    return all(any(x == y for y in it) for x in sub)
+
+
+def p_wire_complete(leaves, matches, fields, rest):
+    """C17_wire_proof_complete on the implementation: the message a full node builds for (block, match vector),
+    under an arbitrary well-formed header carrying the block's Merkle root, parses back to that header and the
+    authentic total, leaves `rest` in the stream, validates and yields exactly the matched ids in order"""
+    root = ref_root(leaves)[::-1]
+    v, pv, _m, t, b, n = fields
+    hb = struct.pack("<I", v) + pv[::-1] + root[::-1] + struct.pack("<I", t) + b + n
+    total, bits, hashes, flags = ref_build(leaves, matches)
+    st = BytesIO(wire_merkleblock(hb, total, hashes, flags) + rest)
+    try:
+        mb = MerkleBlock.parse(st)
+    except Exception as e:
+        return "MerkleBlock.parse raised on an honest merkleblock message: " + repr(e)
+    if _hdr(mb.header) != [v, pv, root, t, b, n]:
+        return "MerkleBlock.parse returns a different header"
+    if mb.total != len(leaves) or list(mb.hashes) != [h[::-1] for h in hashes] or mb.flags != flags:
+        return "MerkleBlock.parse returns a different total / hash list / flag field"
+    if st.read() != rest:
+        return "MerkleBlock.parse consumed bytes after the message"
+    if mb.proved_txs() != []:
+        return "proved_txs() before is_valid() is not empty"
+    try:
+        ok = mb.is_valid()
+    except Exception as e:
+        return "is_valid raised on an honest merkleblock message: " + repr(e)
+    if not ok:
+        return "honest merkleblock message does not validate"
+    if mb.proved_txs() != [x[::-1] for x, m in zip(leaves, matches) if m]:
+        return "proved_txs differs from the matched ids in order"
+    if any(len(h) != 32 for h in mb.hashes):
+        return "MerkleBlock.parse returned a hash that is not 32 bytes long"
+    return None
+
+
+def p_populate_lists(total, bits, hashes):
+    """C17_populate_tree_consumes_lists: after a successful populate_tree the caller's hash list is empty and the
+    flag list is a suffix of what was passed, holding only zeros"""
+    fb, hl = list(bits), list(hashes)
+    t = MerkleTree(total)
+    try:
+        t.populate_tree(fb, hl)
+    except Exception:
+        return None
+    if hl != []:
+        return "populate_tree returned with hashes left in the caller's list"
+    if any(x != 0 for x in fb):
+        return "populate_tree returned with a non-zero flag bit left"
+    if len(fb) > len(bits) or list(bits)[len(bits) - len(fb):] != fb:
+        return "the flag list after populate_tree is not a suffix of the list passed in"
+    # a second call on the same (complete) tree with the left-over lists changes nothing
+    root, proved = t.root(), list(t.proved_txs)
+    try:
+        t.populate_tree(fb, hl)
+    except Exception as e:
+        return "second populate_tree on a complete tree raised " + repr(e)
+    if t.root() != root or t.proved_txs != proved:
+        return "second populate_tree on a complete tree changed root / proved_txs"
+    return None
+
+
+def p_headers_wire(fields, rest):
+    """C17_wire_headers / C17_header_chain_decides: HeadersMessage.parse(layout).is_valid() is the reference chain
+    validity of the headers sent"""
+    st = BytesIO(wire_headers(fields) + rest)
+    try:
+        msg = network.HeadersMessage.parse(st)
+    except Exception as e:
+        return "HeadersMessage.parse raised on a well-formed headers message: " + repr(e)
+    if [_hdr(h) for h in msg.headers] != [list(f) for f in fields]:
+        return "HeadersMessage.parse returns different headers"
+    if st.read() != rest:
+        return "HeadersMessage.parse consumed bytes after the message"
+    try:
+        got = msg.is_valid()
+    except Exception as e:
+        return "HeadersMessage.is_valid raised on well-formed headers: " + repr(e)
+    want = _ref_chain_valid(fields)
+    if got != want:
+        return f"HeadersMessage.parse(...).is_valid() = {got}, reference = {want}"
     return None
 
 
@@ -468,8 +621,9 @@ def p_total_forgery(leaves):
 
 
 def p_hashlen_split(la, lb):
-    """K-C17-hashlen: a MerkleBlock OBJECT (not obtainable from MerkleBlock.parse) whose two hashes are 33 and
-    31 bytes long splits la||lb elsewhere; total is the authentic 2"""
+    """regression for the fix 5e35f6e (former K-C17-hashlen): a MerkleBlock OBJECT (not obtainable from
+    MerkleBlock.parse) whose two hashes are 33 and 31 bytes long would split la||lb elsewhere; total is the
+    authentic 2; is_valid must not accept it"""
     root = h256(la + lb)[::-1]
     mb = _mb(root, 2, [(la + lb[:1])[::-1], lb[1:][::-1]], b"\x07")
     try:
@@ -504,13 +658,19 @@ def p_depth_formula(total):
 
 
 def p_compact_ref(bits):
+    """bits_to_target = Core SetCompact on every four-byte value: the same int when Core flags neither negative nor
+    overflow, ValueError exactly when it flags either (C17_compact_eq_core_all)"""
     n = int.from_bytes(bits, "little")
     val, neg, ovf = core_set_compact(n)
     try:
         x = helper.bits_to_target(bits)
+    except ValueError:
+        if neg or ovf:
+            return None
+        return f"bits_to_target({bits.hex()}) raised ValueError; Core SetCompact gives {val:#x} without a flag"
     except Exception as e:
         return "bits_to_target raised " + type(e).__name__
-    if not isinstance(x, int):
+    if type(x) is not int:
         return f"bits_to_target({bits.hex()}) is a {type(x).__name__} ({x!r}); Core SetCompact gives {val}"
     if neg or ovf or x != val:
         return (f"bits_to_target({bits.hex()}) = {x:#x}; Core SetCompact gives {val:#x} negative={neg} overflow={ovf}")
@@ -532,12 +692,26 @@ def p_compact_rt(target):
 
 
 def p_retarget_ref(bits, td):
+    """calculate_new_bits = Core CalculateNextWorkRequired for every previous bits value Core accepts (no flag,
+    target <= powLimit: C17_retarget_eq_consensus_all); flagged bits raise ValueError; for unflagged targets above
+    powLimit (where Core's 256-bit product may wrap) the consensus formula in unbounded integers"""
     n = int.from_bytes(bits, "little")
-    want = core_next_work(n, td)
+    val, neg, ovf = core_set_compact(n)
     try:
         b = helper.calculate_new_bits(bits, td)
+    except ValueError:
+        if neg or ovf:
+            return None
+        return f"calculate_new_bits({bits.hex()}, {td}) raised ValueError on bits that SetCompact does not flag"
     except Exception as e:
-        return f"calculate_new_bits({bits.hex()}, {td}) raised {type(e).__name__}; Core gives {want:#010x}"
+        return f"calculate_new_bits({bits.hex()}, {td}) raised {type(e).__name__}"
+    if neg or ovf:
+        return f"calculate_new_bits({bits.hex()}, {td}) accepted bits that SetCompact flags negative/overflow"
+    if val <= POW_LIMIT:
+        want = core_next_work(n, td)
+    else:
+        ts = min(max(td, TIMESPAN // 4), TIMESPAN * 4)
+        want = core_get_compact(min(val * ts // TIMESPAN, 0xFFFF * 256 ** (0x1D - 3)))
     if len(b) != 4 or int.from_bytes(b, "little") != want:
         return f"calculate_new_bits({bits.hex()}, {td}) = {b.hex()}; Core CalculateNextWorkRequired gives {want:#010x}"
     return None
@@ -558,13 +732,53 @@ def p_pow_ref(v, p, m, t, b, n):
     if got != want:
         return (f"check_pow = {got}, consensus (hash <= target, target from SetCompact, not negative/overflow/zero) "
                 f"= {want}; hash={proof:#x} target={val:#x} bits={b.hex()} hash==target: {proof == val}")
-    if compact_guard(b) and val != 0:
+    if neg or ovf:
+        try:
+            blk.target()
+            return "Block.target returned a value for bits that SetCompact flags negative/overflow"
+        except ValueError:
+            pass
+    else:
         if blk.target() != val:
             return "Block.target differs from SetCompact"
-        dif = blk.difficulty()
-        exact = Fraction(0xFFFF * 256 ** (0x1D - 3), val)
-        if abs(Fraction(dif) - exact) > exact / 10 ** 12:
-            return "Block.difficulty is not max_target / target"
+        if val != 0:
+            dif = blk.difficulty()
+            exact = Fraction(0xFFFF * 256 ** (0x1D - 3), val)
+            # C17_difficulty_correctly_rounded: the nearest double to the exact quotient
+            if type(dif) is not float or abs(Fraction(dif) - exact) * 2 > Fraction(math.ulp(dif)):
+                return "Block.difficulty is not the double nearest to max_target / target"
+            lo, hi = math.nextafter(dif, 0.0), math.nextafter(dif, math.inf)
+            if abs(Fraction(lo) - exact) < abs(Fraction(dif) - exact) or abs(Fraction(hi) - exact) < abs(Fraction(dif) - exact):
+                return "Block.difficulty is not the double nearest to max_target / target (a neighbour is closer)"
+        else:
+            try:
+                blk.difficulty()
+                return "Block.difficulty returned a value for the target 0"
+            except ZeroDivisionError:
+                pass
+    return None
+
+
+def p_pow_eq_stub(v, p, m, t, b, n):
+    """fd08533: a header whose hash EQUALS its target passes check_pow (consensus: hash <= target), target + 1 does
+    not, target - 1 does.  No preimage for such a hash is known, so for the duration of the call the name hash256
+    inside buidl.block is bound to a function that returns the wanted 32 bytes (everything else is the real code)."""
+    val, neg, ovf = core_set_compact(int.from_bytes(b, "little"))
+    if neg or ovf or val == 0 or val + 1 >= 2 ** 256:
+        return None
+    blk = _blk(v, p, m, t, b, n)
+    saved = block.hash256
+    got = {}
+    try:
+        for d in (-1, 0, 1):
+            block.hash256 = lambda s, d=d: (val + d).to_bytes(32, "little")
+            got[d] = blk.check_pow()
+    finally:
+        block.hash256 = saved
+    if got[0] is not True:
+        return f"check_pow = {got[0]} for a hash equal to the target {val:#x} (consensus accepts hash <= target)"
+    if got[-1] is not True or got[1] is not False:
+        return f"check_pow around the target: hash=target-1 -> {got[-1]}, hash=target+1 -> {got[1]}"
     return None
 
 
@@ -904,7 +1118,9 @@ PROPS = {"root_ref": p_root_ref, "proof_complete": p_proof_complete, "proof_comp
          "depth_formula": p_depth_formula, "compact_ref": p_compact_ref, "compact_rt": p_compact_rt,
          "retarget_ref": p_retarget_ref, "pow_ref": p_pow_ref, "chain": p_chain,
          "reuse_mb": p_reuse_mb, "two_proofs": p_two_proofs, "root_order": p_root_order,
-         "reuse_block": p_reuse_block, "reuse_headers": p_reuse_headers, "compact_order": p_compact_order}
+         "reuse_block": p_reuse_block, "reuse_headers": p_reuse_headers, "compact_order": p_compact_order,
+         "wire_complete": p_wire_complete, "populate_lists": p_populate_lists, "headers_wire": p_headers_wire,
+         "pow_eq_stub": p_pow_eq_stub}
 
 
 def classify(v):
@@ -914,27 +1130,8 @@ def classify(v):
     name, a = v["name"], v["args"]
     if name == "total_forgery":
         return "K-C17-total"
-    if name == "hashlen_split":
-        return "K-C17-hashlen"
     if name == "tamper" and a[4] == 2 and "not in the block" in v.get("detail", ""):
         return "K-C17-total"
-    if name == "compact_ref" and not compact_guard(a[0]):
-        return "K-C17-compact"
-    if name == "compact_rt" and 0 <= a[0] < 0x8000:
-        return "K-C17-compact"
-    if name == "retarget_ref":
-        bits = a[0]
-        if not compact_guard(bits):
-            return "K-C17-compact"
-        t = core_set_compact(int.from_bytes(bits, "little"))[0]
-        if t < 0x20000 or t > POW_LIMIT:
-            return "K-C17-compact"
-    if name == "pow_ref":
-        bits = a[4]
-        if not compact_guard(bits):
-            return "K-C17-compact"
-        if "hash==target: True" in v.get("detail", ""):
-            return "K-C17-pow-eq"
     return None
 
 
@@ -959,6 +1156,17 @@ def proof_cases(ctx, leaves, matches, full=True):
         yield ("prop", "proof_complete_spec", [leaves, matches])
         yield ("corr", "populate", [total, helper.bytes_to_bit_field(flags), hashes])
         yield ("corr", "mb_parse", [_raw_merkleblock(root, total, hashes, flags)])
+        # wire level: Core layout (extracted spec encoder) -> MerkleBlock.parse -> is_valid / proved_txs
+        f = rheader_fields(ctx, ctx.rng.choice(_guard_bits_pool()))
+        rest = ctx.rbytes(ctx.rng.choice([0, 0, 1, 5]))
+        hb = struct.pack("<I", f[0]) + f[1][::-1] + root[::-1] + struct.pack("<I", f[3]) + f[4] + f[5]
+        ctx.label("wire/merkleblock")
+        yield ("prop", "wire_complete", [leaves, matches, f, rest])
+        yield ("corr", "merkleblock_of_block", [hb, leaves, [1 if m else 0 for m in matches]])
+        yield ("corr", "merkleblock_bytes", [hb, total, hashes, flags])
+        yield ("corr", "mb_parse_is_valid", [wire_merkleblock(hb, total, hashes, flags) + rest])
+        yield ("corr", "populate_mut", [total, helper.bytes_to_bit_field(flags), hashes])
+        yield ("prop", "populate_lists", [total, helper.bytes_to_bit_field(flags), hashes])
 
 
 def tamper_cases(ctx, leaves, matches, every_bit):
@@ -1097,6 +1305,9 @@ def generate(ctx):
         ctx.label("populate/random")
         yield ("corr", "populate", [total, bits, hs])
         yield ("corr", "populate_rec", [total, bits, hs])
+        yield ("corr", "populate_mut", [total, bits, hs])
+        yield ("corr", "populate_rec_mut", [total, bits, hs])
+        yield ("prop", "populate_lists", [total, bits, hs])
     for total in (0, -1, -5):
         yield ("corr", "populate", [total, [1, 0], [ctx.rbytes(32)]])
         yield ("corr", "populate_rec", [total, [1, 0], [ctx.rbytes(32)]])
@@ -1108,6 +1319,15 @@ def generate(ctx):
     for cut in range(0, len(raw) + 1, 1 if ctx.tier != "quick" else 3):
         ctx.label("parse/truncated")
         yield ("corr", "mb_parse", [raw[:cut]])
+        if cut < 81 or cut >= 84:          # a cut inside the total field is a short read of it: still small
+            yield ("corr", "mb_parse_is_valid", [raw[:cut]])
+    for _ in range(ctx.n(40, 800)):        # parse . is_valid on corrupted messages (total field left alone)
+        bad = bytearray(raw + ctx.rbytes(r.randrange(0, 3)))
+        i = r.randrange(0, len(bad) - 4)
+        i = i + 4 if i >= 80 else i
+        bad[i] ^= 1 << r.randrange(8)
+        ctx.label("wire/corrupted")
+        yield ("corr", "mb_parse_is_valid", [bytes(bad)])
     pre = raw[:84] + b"\x01" + ctx.rbytes(32)
     for fl in (b"\xff" + b"\xff" * 8, b"\xff" + b"\x00" * 7 + b"\x80", b"\xff" + b"\xff" * 7 + b"\x7f",
                b"\xfe\xff\xff\xff\xff", b"\xfd\x00\x01", b"\x00", b"\xfd", b""):
@@ -1133,9 +1353,10 @@ def generate(ctx):
     for e in list(range(0, 36)) + [127, 128, 255]:
         for c in COEFFS + [r.getrandbits(24) for _ in range(ctx.n(2, 20))]:
             bits = struct.pack("<I", c)[:3] + bytes([e])
-            ctx.label("compact/in-guard" if compact_guard(bits) else
+            ctx.label("compact/usual" if compact_guard(bits) else
                       ("compact/exp<3" if e < 3 else ("compact/sign" if c & 0x800000 else "compact/overflow")))
             yield ("corr", "bits_to_target", [bits])
+            yield ("corr", "difficulty", [bits])
             yield ("prop", "compact_ref", [bits])
             yield ("corr", "core_set_compact", [int.from_bytes(bits, "little")])
             for td in (helper.TWO_WEEKS, helper.TWO_WEEKS // 4, helper.TWO_WEEKS * 4):
@@ -1144,6 +1365,7 @@ def generate(ctx):
                 yield ("corr", "core_next_work", [int.from_bytes(bits, "little"), td])
     for bits in (b"", b"\x05", b"\x01\x04", b"\x01\x02\x03", b"\x01\x02\x03\x04\x05", b"\x00\x00\x00\x00\x00\x02"):
         yield ("corr", "bits_to_target", [bits])
+        yield ("corr", "difficulty", [bits])
         yield ("corr", "calculate_new_bits", [bits, helper.TWO_WEEKS])
     targets = [0, -1, 2 ** 256, 2 ** 256 - 1, 2 ** 256 + 5, helper.MAX_TARGET, helper.MAX_TARGET + 1, POW_LIMIT,
                POW_LIMIT + 1, 0x7F, 0x80, 0x7FFF, 0x8000, 0x7FFFFF, 0x800000, 0x7FFFFFFF, 0x80000000]
@@ -1187,9 +1409,11 @@ def generate(ctx):
             bits = r.choice(COEFFS).to_bytes(3, "little") + bytes([r.choice([0, 1, 2, 3, 32, 33, 34, 35])])
         f = rheader_fields(ctx, bits)
         ctx.label("pow/header")
+        yield ("corr", "difficulty", [f[4]])
         yield ("corr", "check_pow", f)
         yield ("corr", "block_hash", f)
         yield ("prop", "pow_ref", f)
+        yield ("prop", "pow_eq_stub", f)
         yield ("corr", "core_check_pow", [r.getrandbits(256) >> r.randrange(0, 40), int.from_bytes(f[4], "little")])
     for v, t in ((-1, 0), (2 ** 32, 0), (0, -1), (0, 2 ** 32)):
         f = rheader_fields(ctx, bytes.fromhex("ffff7f20"))
@@ -1230,6 +1454,16 @@ def generate(ctx):
             ctx.label("chain/honest")
         yield ("corr", "headers_is_valid", [chain])
         yield ("prop", "chain", [chain])
+        rest = ctx.rbytes(r.choice([0, 0, 2]))
+        ctx.label("wire/headers")
+        yield ("prop", "headers_wire", [chain, rest])
+        wh = wire_headers(chain) + rest
+        yield ("corr", "headers_parse_is_valid", [wh])
+        if wh and r.random() < 0.5:        # truncated / corrupted headers messages
+            yield ("corr", "headers_parse_is_valid", [wh[: r.randrange(len(wh))]])
+            bad = bytearray(wh)
+            bad[r.randrange(len(bad))] ^= 1 << r.randrange(8)
+            yield ("corr", "headers_parse_is_valid", [bytes(bad)])
     # ---------------- one object used repeatedly: stale memoised state, coarse module-level caches
     for n in [1, 2, 3, 4, 5, 7, 8, 11, 16, 33] + [r.randrange(2, 120) for _ in range(ctx.n(4, 60))]:
         leaves = rleaves(ctx, n, dup=(n % 5 == 3))
